@@ -67,6 +67,35 @@ def r02_1(prog, rep):
         inner = r[2][0] if ok else None
         ok = ok and (T.is_call_to(inner, "typelib.marshals.api.marshal") and _arg(inner, 0, "value") == ("param", "value") and _arg(inner, 1, "t") == ("param", "t") or (len(m_bodies) == 1 and inner == m_bodies[0]))
         rep.check(ok, "R02.1", e.qualname, e.loc, "returns encoder(marshal(value, t=t))", "api.encode does not apply its `encoder` parameter to marshal(value, t=t): " + T.show(r)[:120])
+    # the verbatim decision of encode() is about the type the marshaller is built for: `t`, or the value's class when no t is given
+    subjects = []
+    for p in P.splice_helpers(prog, P.paths_of(prog, e)):
+        for g, _pol in p.guards():
+            if T.is_call_to(g, f"{C.INSP}.isbytestype") and g[2]:
+                x = g[2][0]
+                while x[0] == "call" and T.refname(x[1]) in (f"{C.INSP}.unwrap", f"{C.INSP}.origin", f"{C.INSP}.resolve_supertype", "typelib.py.refs.evaluate", "typelib.py.refs.forwardref") and x[2]:
+                    x = x[2][0]
+                if x[0] == "ifexp" and x[2][0] == "call":
+                    continue  # (the reference arm of the helper, judged by bytes-guard-reference)
+                subjects.append(x)
+    TP, VAL = ("param", "t"), ("param", "value")
+
+    def under(x, t_is_none):
+        def f(tm):
+            if tm[0] == "cmp" and tm[1] in ("is", "isnot") and {tm[2], tm[3]} == {TP, ("const", None)}:
+                return ("const", t_is_none if tm[1] == "is" else not t_is_none)
+            return None
+
+        y = T.rewrite(x, f)
+        while y[0] == "ifexp" and y[1][0] == "const":
+            y = y[2] if y[1][1] else y[3]
+        if y[0] == "boolop" and y[1] == "or" and y[2][0] == TP:  # `t or value.__class__`
+            y = y[2][1] if t_is_none else TP
+        return y
+
+    if subjects:
+        good = all(under(x, True) == ("attr", VAL, "__class__") and under(x, False) == TP for x in subjects)
+        rep.check(good, "R02.1", e.qualname, e.loc, "the verbatim decision is taken on `t`, or on the value's class when no t is given", f"encode() decides whether the value travels verbatim on {T.show(subjects[0])[:70]}: with t omitted (or given) the decision is about another type than the one the marshaller is built for -- typelib.encode(b'x') hands bytes to the JSON encoder (TypeError), or a bytes value is returned unencoded for a non-bytes t", detail="encode-verbatim-subject")
     d = prog.function("typelib.api.decode")
     for p, r in P.returns(P.splice_helpers(prog, P.paths_of(prog, d))):
         ok = T.is_call_to(r, "typelib.unmarshals.api.unmarshal") and _arg(r, 0, "t") == ("param", "t")
